@@ -327,6 +327,14 @@ impl CtcDecoder {
             topk_extensions.clear();
             for bi in 0..beam.len() {
                 for label in 0..n_labels {
+                    // If extending this state produces the same prefix as
+                    // another state in the beam, the probability of the
+                    // extension was added to that state. Adding the extension
+                    // as well would duplicate the prefix.
+                    if merges.contains_key(&(bi, label as u32)) {
+                        continue;
+                    }
+
                     let prob_sum = log_sum_exp([
                         next_prob_blank[[bi, label]],
                         next_prob_no_blank[[bi, label]],
@@ -531,5 +539,40 @@ mod tests {
         assert_eq!(beam_str, "");
         let expected_score = log_sum_exp([input[[0, blank_label]] + input[[1, blank_label]]]);
         assert_eq!(beam_output.score(), expected_score);
+    }
+
+    #[test]
+    fn test_decode_beam_wider_than_candidates() {
+        let decoder = CtcDecoder::new();
+
+        // Uniform distribution over a blank and two labels. With three time
+        // steps there are 15 possible label sequences, which is fewer than the
+        // beam size.
+        let n_labels = 3;
+        let seq_len = 3;
+        let input = NdTensor::<f32, 2>::full([seq_len, n_labels], (1. / n_labels as f32).ln());
+
+        let hyps = decoder.decode_beam_nbest(input.view(), 50, 50);
+        assert!(hyps.len() <= 15);
+
+        // Each hypothesis should have a different label sequence.
+        let mut label_seqs: Vec<Vec<u32>> = hyps
+            .iter()
+            .map(|hyp| hyp.steps().iter().map(|s| s.label).collect())
+            .collect();
+        label_seqs.sort();
+        label_seqs.dedup();
+        assert_eq!(label_seqs.len(), hyps.len());
+
+        // Since no hypotheses are discarded, the probabilities should sum to 1.
+        let total_prob: f32 = hyps.iter().map(|hyp| hyp.score().exp()).sum();
+        assert!((total_prob - 1.).abs() < 1e-5, "total_prob {}", total_prob);
+
+        // There are 6 paths which produce the output "a" (or "b") and all
+        // paths have the same probability.
+        let best = decoder.decode_beam(input.view(), 50);
+        assert_eq!(best.steps().len(), 1);
+        let expected_prob = 6. / (n_labels as f32).powi(seq_len as i32);
+        assert!((best.score().exp() - expected_prob).abs() < 1e-5);
     }
 }
